@@ -3,7 +3,8 @@
 (* Leg C for C01.  One trace line per executed case (real pkg/dedup code): *)
 (*   in.reps     replicas handed to dedup.NewSeriesSet: sequences of       *)
 (*               samples <<t, v>> (strictly increasing t, integer v)       *)
-(*   in.f        query function (not a counter function), in.src iterator  *)
+(*   in.f        select-hint function, any but rate/irate/increase/resets   *)
+(*               ("", gauge, *_over_time, x-functions); in.src iterator     *)
 (*               kind, in.targets seek targets, in.drift compare to model  *)
 (*   next        the stream of a reader that only calls Next               *)
 (*   seeks[k]    [x, s]: stream s of a reader on a fresh iterator whose    *)
